@@ -38,6 +38,11 @@ var universeB = map[string]string{
 	// package chain: renaming the parameter out of one collision walks it into
 	// the next (used by the "rename chain" method only)
 	"u/k/chain/chain.go":     "package chain\n\ntype K struct{ V int }\n",
+	// two packages of one name whose paths differ only near the root, below long
+	// directory names: the alias moq has to invent repeats most of the path
+	// (used by the "long alias" methods only; no source file gives them an alias)
+	"u/l1/observabilityinstrumentation/telemetrycollectors/probe/probe.go": "package probe\n\ntype L1 struct{ V int }\n",
+	"u/l2/observabilityinstrumentation/telemetrycollectors/probe/probe.go": "package probe\n\ntype L2 struct{ V int }\n",
 	"u/k/chainmp/chainmp.go": "package chainMoqParam\n\ntype Z struct{ V int }\n",
 }
 
@@ -248,6 +253,7 @@ func GenerateB(spec Spec) *CorpusB {
 		tp := tape.New(tape.Mix(tape.MixS(spec.Seed, "corpusB"), uint64(pi)))
 		p := &PkgB{ID: fmt.Sprintf("q%03d", pi), Files: map[string]string{}}
 		nfiles := 1 + tp.Int(2)
+		longPkg := false
 		for fi := 0; fi < nfiles; fi++ {
 			g := &genB{tp: tp, used: map[string]btype{}}
 			var body strings.Builder
@@ -278,7 +284,30 @@ func GenerateB(spec Spec) *CorpusB {
 					chain = true
 				}
 			}
+			// "long alias": with two files, the first interface of each file mentions
+			// one of the two packages called probe; mocked together they need
+			// invented aliases of more than fifty characters
+			long := false
+			if st := tape.New(tape.Mix(tape.MixS(spec.Seed, "corpusB-long"), uint64(pi))); nfiles == 2 && st.Int(3) == 0 {
+				variants := [][2]string{
+					{"\tML(p *probe.L1) error\n}\n", "\tML(q probe.L2, s string)\n}\n"},
+					{"\tML(probe string, p probe.L1)\n}\n", "\tML(fn func(probe.L2) error) probe.L2\n}\n"},
+				}
+				if i := strings.Index(text, "}\n"); i >= 0 {
+					text = text[:i] + variants[st.Int(len(variants))][fi] + text[i+2:]
+					long = true
+					longPkg = true
+				}
+			}
 			fin := g.finish(text)
+			if long {
+				imp := "import (\n\t\"" + ModuleB + "/u/l" + fmt.Sprint(fi+1) + "/observabilityinstrumentation/telemetrycollectors/probe\"\n"
+				if strings.Contains(fin, "import (\n") {
+					fin = strings.Replace(fin, "import (\n", imp, 1)
+				} else {
+					fin = imp + ")\n" + fin
+				}
+			}
 			if chain {
 				fin = strings.Replace(fin, "import (\n", "import (\n\t\""+ModuleB+"/u/k/chain\"\n\t\""+ModuleB+"/u/k/chainmp\"\n", 1)
 			}
@@ -298,6 +327,18 @@ func GenerateB(spec Spec) *CorpusB {
 				names[i], names[j] = names[j], names[i]
 			}
 			names = names[:1+tp.Int(len(names))]
+			if longPkg && k == 0 {
+				// the two interfaces that bring in the two packages called probe, together
+				for _, want := range []string{"IAA", "IBA"} {
+					have := false
+					for _, n := range names {
+						have = have || n == want
+					}
+					if !have {
+						names = append(names, want)
+					}
+				}
+			}
 			if f.Alias {
 				names[0] = names[0] + ":Fake" + names[0]
 			}
